@@ -28,6 +28,7 @@ package cmd
 // RunNamedPipe itself (flag parsing, logger construction, errgroup) is not symbolically executed: this clause
 // only names its result for the callers and is reported as an assumed contract; its wiring is checked structurally.
 //@ func RunNamedPipe
+//@   assumed flag parsing, logger/metrics construction and errgroup are outside the executor's subset; the wiring is checked structurally on the SSA (runnamedpipe-wiring)
 //@   modifies out, ctr, chans, "F!*", "M!*", "S!*", "B!*", "V!*", g_run_ret, g_run_ctx
 //@   ghost g_run_ctx := ctx
 //@   ghost_exit g_run_ret := result
